@@ -14,7 +14,28 @@ RUST_NOTE = (COMMON_NOTE + "Modelled, not verified: Vec/slice semantics incl. bi
              "layout represents the tree. Not modelled: arena `generation`, Vec capacity, float statistics, LeafNode::insert/split/merge_from (dead "
              "duplicates), print_node_chain, error Display.")
 
+PY_NOTE = (COMMON_NOTE + "Modelled, not verified: CPython semantics of lists, bisect on sorted lists, comparisons of totally ordered keys "
+           "(no NaN, no raising or mutating __lt__), object identity. The model keeps a child inside its parent and resolves leaf references "
+           "(leaves head, next links, bulk-load cache) by object id, sound when ids are distinct (part of the proved invariant PyInv) and compared on "
+           "every run through the chain / head / cache positions of the real object graph. Not modelled: Python's recursion limit on tree height, "
+           "leaf_count/_count_total_nodes (test helpers), batching loops of _bulk_load_sorted (reduced to 'items in order'). Theorems are about the "
+           "repaired code (model variant del_by_value = false); the pre-repair variant is refuted in Py/LegacyRefuted.v.")
+
 T = {
+ "C07": ("Machine-checked proof that every finite history of calls on the model of the pure-Python BPlusTreeMap (constructor, assignment, lookup, deletion, "
+         "get, membership, len, bool, pop, popitem, setdefault, update, copy over several named maps, clear, bulk load, ranges), at every capacity, produces "
+         "call by call the outputs of the dict specification (values, KeyError, TypeError, InvalidCapacityError) and never an internal error "
+         "(Props/C07.v: py_history_refines and the property's sentences as corollaries; no bound on sizes, no recursion-limit parameter). Tied to "
+         "/repo/python/bplustree/bplus_tree.py by running the extracted model and the real module on the same generated histories (int/str/tuple/float/"
+         "user-class keys, None values, thousands of leaves) and comparing outputs, the logical object graph, the leaf chain, head and cache positions "
+         "after every call; a dict mirror is the failing-input oracle.", PY_NOTE),
+ "C08": ("Proof that on every state reached by any history items/keys/values yield the whole contents in strictly ascending key order and items/keys/"
+         "values/range(a, b) equal the filter a <= key < b (None = unbounded) for arbitrary endpoints, incl. empty and inverted intervals (Props/C08.v); "
+         "tied to the code on (start, end) grids over keys, gaps, sentinels and None after generated histories.", PY_NOTE),
+ "C09": ("Proof that every map of every history satisfies PyInv (order, separator bounds, equal leaf depth, capacity, minimum (capacity-1)//2 written "
+         "literally, root arity, chain = in-order leaves, head = first leaf, cache well formed), that the capacity guard of the merges never refuses on "
+         "such states, and that from_sorted_items yields the same contents as one-by-one assignment and satisfies PyInv - for every item list, sorted or "
+         "not (Props/C09.v). Tied to the code by comparing the object graph after every call; an independent structural walk is the oracle.", PY_NOTE),
  "C01": ("Machine-checked proof that every finite history of insert/remove/get/get_mut/contains_key/get_or_default/len/is_empty/clear (and the other "
          "abstract operations) on the model of BPlusTreeMap, at every capacity >= 4, returns exactly what the sorted-association-list specification "
          "returns, never panics, and keeps the full invariant (Props/C01.v: run-level refinement by induction over the history; per-call corollaries "
